@@ -29,7 +29,7 @@ pub enum Tok {
 }
 
 #[derive(Debug)]
-pub struct SErr;
+pub struct SErr(pub u8);
 impl fmt::Display for SErr {
     fn fmt(&self, _: &mut fmt::Formatter) -> fmt::Result {
         Ok(())
@@ -37,12 +37,12 @@ impl fmt::Display for SErr {
 }
 impl ser::Error for SErr {
     fn custom<T: fmt::Display>(_: T) -> Self {
-        SErr
+        SErr(99)
     }
 }
 impl de::Error for SErr {
     fn custom<T: fmt::Display>(_: T) -> Self {
-        SErr
+        SErr(99)
     }
 }
 impl ser::StdError for SErr {}
@@ -50,10 +50,12 @@ impl ser::StdError for SErr {}
 pub struct Rec {
     pub toks: [Tok; 4],
     pub n: usize,
+    /// refuse scalars with a structured (non-custom) error
+    pub reject: bool,
 }
 impl Rec {
     fn new() -> Rec {
-        Rec { toks: [Tok::Other; 4], n: 0 }
+        Rec { toks: [Tok::Other; 4], n: 0, reject: false }
     }
     fn push(&mut self, t: Tok) {
         if self.n < 4 {
@@ -94,6 +96,9 @@ impl<'a> Serializer for &'a mut Rec {
         serialize_u16(u16), serialize_u32(u32), serialize_f32(f32), serialize_f64(f64), serialize_char(char), serialize_str(&str),
         serialize_bytes(&[u8]), serialize_unit_struct(&'static str));
     fn serialize_u64(self, v: u64) -> Result<(), SErr> {
+        if self.reject {
+            return Err(SErr(7));
+        }
         self.push(Tok::U64(v));
         Ok(())
     }
@@ -117,28 +122,28 @@ impl<'a> Serializer for &'a mut Rec {
         v.serialize(self)
     }
     fn serialize_newtype_variant<T: ?Sized + Serialize>(self, _: &'static str, _: u32, _: &'static str, _: &T) -> Result<(), SErr> {
-        Err(SErr)
+        Err(SErr(1))
     }
     fn serialize_seq(self, _: Option<usize>) -> Result<Self::SerializeSeq, SErr> {
-        Err(SErr)
+        Err(SErr(1))
     }
     fn serialize_tuple(self, _: usize) -> Result<Self::SerializeTuple, SErr> {
-        Err(SErr)
+        Err(SErr(1))
     }
     fn serialize_tuple_struct(self, _: &'static str, _: usize) -> Result<Self::SerializeTupleStruct, SErr> {
-        Err(SErr)
+        Err(SErr(1))
     }
     fn serialize_tuple_variant(self, _: &'static str, _: u32, _: &'static str, _: usize) -> Result<Self::SerializeTupleVariant, SErr> {
-        Err(SErr)
+        Err(SErr(1))
     }
     fn serialize_map(self, _: Option<usize>) -> Result<Self::SerializeMap, SErr> {
-        Err(SErr)
+        Err(SErr(1))
     }
     fn serialize_struct(self, _: &'static str, _: usize) -> Result<Self::SerializeStruct, SErr> {
-        Err(SErr)
+        Err(SErr(1))
     }
     fn serialize_struct_variant(self, _: &'static str, _: u32, _: &'static str, _: usize) -> Result<Self::SerializeStructVariant, SErr> {
-        Err(SErr)
+        Err(SErr(1))
     }
 }
 
@@ -157,7 +162,7 @@ impl<'de, 'a, 'b> Deserializer<'de> for &'b mut Play<'a> {
             Tok::U64(v) => visitor.visit_u64(v),
             Tok::None => visitor.visit_none(),
             Tok::Some => visitor.visit_some(self),
-            Tok::Other => Err(SErr),
+            Tok::Other => Err(SErr(1)),
         }
     }
     fn deserialize_option<V: Visitor<'de>>(self, visitor: V) -> Result<V::Value, SErr> {
@@ -226,6 +231,17 @@ pub(crate) fn c20_serialize_transparent() {
     let t_p = tokens_of(&a);
     vassert!(t_c.same(&t_p) && t_c.n == 1 && t_c.toks[0] == Tok::U64(o as u64), "container_serializes_as_its_stored_pointer");
     vassert!(model::cnt(o) == c0, "serialize_leaves_counts_unchanged");
+    // failures are transparent too: the container reports exactly the error its pointer reports
+    let mut r1 = Rec::new();
+    r1.reject = true;
+    let e1 = s.serialize(&mut r1);
+    let mut r2 = Rec::new();
+    r2.reject = true;
+    let e2 = a.serialize(&mut r2);
+    vassert!(e1.is_err() && e2.is_err(), "rejecting_serializer_rejects");
+    let (c1, c2) = (match e1 { Err(SErr(c)) => c, Ok(()) => 0 }, match e2 { Err(SErr(c)) => c, Ok(()) => 0 });
+    vassert!(c1 == c2 && c1 == 7, "container_reports_exactly_the_error_of_its_stored_pointer");
+    vassert!(model::cnt(o) == c0, "failed_serialize_leaves_counts_unchanged");
     mem::forget(s);
     mem::forget(a);
     vcover!("c20_serialize_transparent_end");
